@@ -12,7 +12,8 @@
    allocated / freed).  Dereferencing a pointer that is not allocated is `TStuck` (undefined behaviour in C),
    a loop that runs out of fuel is `TStuck` too; `TFail` is the C function returning FALSE / NULL / an error.
    Definitions only (no proofs here: the model must still run when a proof breaks).
-   Not modelled: allocation failure; the content of a nested tree (a TREE node carries only its language). *)
+   Not modelled: allocation failure; the content of a nested tree (a TREE node carries the language and the identity
+   of the nested tree object it owns, so that its ownership can be followed). *)
 From Coq Require Import List NArith Bool String.
 From Wbxml Require Import Model.TablesDefs.
 Import ListNotations.
@@ -121,7 +122,7 @@ Inductive data :=
 | DText (content : bytes)
 | DCdata
 | DPi
-| DTree (lang : N).
+| DTree (lang : N) (tree : option N).   (* node->tree: the nested WBXMLTree object the node owns (None = NULL) *)
 
 Record node := mkN { n_data : data; n_parent : option id; n_children : option id;
                      n_next : option id; n_prev : option id }.
@@ -233,8 +234,10 @@ Definition extract_node (t : tstate) (n : id) : tres tstate :=
   do nn3 <- get h3 n;
   TOk (mkT (upd h3 n (Some (set_prev (set_next nn3 None) None))) root1 (cur_page t) (fresh t)).
 
-(* wbxml_tree_node_destroy: releases one node (and, for a TREE node, the nested tree: not modelled) *)
+(* wbxml_tree_node_destroy: releases one node; for a TREE node it also destroys node->tree (see node_tree) *)
 Definition free_node (h : heap) (i : id) : heap := upd h i None.
+Definition node_tree (h : heap) (i : id) : option N :=
+  match h i with Some n => match n_data n with DTree _ (Some tr) => Some tr | _ => None end | None => None end.
 
 (* the common tail of the wbxml_tree_add_* functions:
      if (!wbxml_tree_add_node(tree, parent, node)) { wbxml_tree_node_destroy(node); return NULL; } return node;
@@ -314,12 +317,14 @@ Definition add_xml_elt_with_attrs fuel l t parent name (kvs : list (bytes * byte
 Definition add_text fuel t parent (text : bytes) := add_new fuel t parent (DText text).
 Definition add_cdata fuel t parent := add_new fuel t parent DCdata.
 
-(* wbxml_tree_add_tree: the node is linked first, then node->tree = new_tree *)
-Definition add_tree fuel t parent (lang : N) : tres (tstate * option id) :=
-  do r <- add_new fuel t parent (DTree 0);
+(* wbxml_tree_add_tree: the node (node->tree still NULL) is linked first, then node->tree = new_tree.
+   On the failure path (add_node refuses: NULL tree, or NULL parent on a rooted tree) the node is destroyed while its
+   tree pointer is NULL: the offered tree stays with the caller. *)
+Definition add_tree fuel t parent (lang : N) (new_tree : N) : tres (tstate * option id) :=
+  do r <- add_new fuel t parent (DTree 0 None);
   match r with
   | (t1, Some n) => do nn <- get (heap_of t1) n;
-                    TOk (with_heap t1 (upd (heap_of t1) n (Some (set_data nn (DTree lang)))), Some n)
+                    TOk (with_heap t1 (upd (heap_of t1) n (Some (set_data nn (DTree lang (Some new_tree))))), Some n)
   | (t1, None) => TOk (t1, None)
   end.
 
@@ -569,7 +574,8 @@ Inductive op :=
 | OpAddXmlElt (p : option id) (name : bytes) (kvs : list (bytes * bytes)) (text : bytes)
 | OpAddText (p : option id) (text : bytes)
 | OpAddCdata (p : option id)
-| OpAddTree (p : option id) (lang : N)
+| OpAddTree (p : option id) (lang : N) (new_tree : N)
+| OpAddNull (d : data)        (* wbxml_tree_add_elt / _add_text / _add_cdata / _add_tree called with tree == NULL *)
 | OpAddAttr (n : id) (k v : bytes)
 | OpExtract (n : id)
 | OpReAdd (p : option id) (n : id)
@@ -607,8 +613,11 @@ Definition exec (l : tlang) (c : cstate) (o : op) : tres (cstate * bool) :=
     if parent_ok h p then lift_add c (add_text fuel t p text) else TOk (c, false)
   | OpAddCdata p =>
     if parent_ok h p then lift_add c (add_cdata fuel t p) else TOk (c, false)
-  | OpAddTree p lang =>
-    if parent_ok h p then lift_add c (add_tree fuel t p lang) else TOk (c, false)
+  | OpAddTree p lang new_tree =>
+    if parent_ok h p then lift_add c (add_tree fuel t p lang new_tree) else TOk (c, false)
+  | OpAddNull d =>
+    (* the node is created, wbxml_tree_add_node refuses it (tree == NULL), the node is destroyed, NULL is returned *)
+    let (t1, n) := alloc t d in TOk (mkC (with_heap t1 (free_node (heap_of t1) n)) (det c), false)
   | OpAddAttr n k v =>
     match h n with
     | Some nn => match n_data nn with
